@@ -133,6 +133,8 @@ class MutualInfoClimateNetwork(ClimateNetwork):
                   "anomaly values using cython...")
 
         #  Normalize anomaly time series to zero mean and unit variance
+        #  NOTE: work on a copy, the anomaly belongs to the (shared) data object
+        anomaly = anomaly.copy()
         self.data.normalize_time_series_array(anomaly)
 
         #  Create local transposed copy of anomaly
